@@ -120,6 +120,9 @@ def worker_main(argv: list[str]) -> int:
     ctx.warm = warm
     ctx.quick_scale = float(os.environ.get(
         "VERIF_QUICK_SCALE", getattr(mod, "META", {}).get("quick_scale", 3)))
+    ctx.thorough_scale = float(os.environ.get(
+        "VERIF_THOROUGH_SCALE",
+        getattr(mod, "META", {}).get("thorough_scale", 4)))
     t0 = time.monotonic()
     if warm:
         try:
